@@ -12,9 +12,10 @@ namespace vf {
 // characters, paths of up to ~50 segments), so that the length-dependent parts (segment lists, recursion depth, size
 // arithmetic) are not only ever seen on short inputs. Decided by the first tape value of a case; 0 = normal.
 inline int &g_scale() { static int s = 1; return s; }
+inline int &g_huge_left() { static int n = 0; return n; }  // how many 2^16-sized segments the current case may still get
 struct LongMode {
-  explicit LongMode(Tape &t) { g_scale() = t.chance(15, 16) ? 1 : 8; }
-  ~LongMode() { g_scale() = 1; }
+  explicit LongMode(Tape &t) { g_scale() = t.chance(15, 16) ? 1 : 8; g_huge_left() = g_scale() > 1 ? 1 : 0; }
+  ~LongMode() { g_scale() = 1; g_huge_left() = 0; }
   bool on() const { return g_scale() != 1; }
 };
 
@@ -181,6 +182,13 @@ inline std::string g_segment(Tape &t, int flavor = SEG_ANY) {
     static const int totals[] = {255, 256, 257, 258, 259, 512, 513, 514};
     std::string pre = t.coin() ? "." : "..";
     int total = totals[t.below(8)];
+    // once per case at most (the recursive-descent parser needs stack in proportion to the text length): 2^16 + 1 / + 2
+    if (g_huge_left() > 0 && t.chance(1, 6)) {
+      g_huge_left()--;
+      static const char *pres[] = {".", "..", "ab:", ":"};  // a colon early in a segment longer than 2^16
+      pre = pres[t.below(4)];
+      total = 65536 + (int)pre.size();
+    }
     return pre + std::string((size_t)total - pre.size(), 'a');
   }
   if (t.chance(5, 6)) return t.pick(flavor == SEG_NOPCTDOT ? vocab_nopctdot : vocab);
